@@ -41,11 +41,11 @@ ARGS = [([], {}), ([1], {}), ([], {"k": 1}), ([1, "two"], {"k": 1}), ([[1, 2]], 
 def plan(tier, seed):
     if tier == "thorough":
         return [dict(seed=seed, shard=i, n=70, kind="steady") for i in range(12)] + [dict(seed=seed, shard="w%d" % i, n=40, kind="window") for i in range(4)] + \
-            [dict(seed=seed, shard="known", n=1, kind="known"), dict(seed=seed, shard="redecorated", n=2, kind="redecorated"), dict(seed=seed, shard="again0", n=40, kind="again"), dict(seed=seed, shard="again1", n=40, kind="again")] + [dict(seed=seed, shard="idle%d" % i, n=20, kind="idle") for i in range(2)] + \
+            [dict(seed=seed, shard="known", n=1, kind="known"), dict(seed=seed, shard="redecorated", n=2, kind="redecorated"), dict(seed=seed, shard="again0", n=40, kind="again"), dict(seed=seed, shard="again1", n=40, kind="again"), dict(seed=seed, shard="kept", n=30, kind="kept")] + [dict(seed=seed, shard="idle%d" % i, n=20, kind="idle") for i in range(2)] + \
         [dict(seed=seed, shard="storm%d" % i, n=25, kind="storm") for i in range(2)]
     return [dict(seed=seed, shard="idle", n=6, kind="idle"), dict(seed=seed, shard="storm", n=6, kind="storm")] + [dict(seed=seed, shard=i, n=6, kind="steady") for i in range(12)] + [dict(seed=seed, shard="w%d" % i, n=5, kind="window") for i in range(4)] + \
         [dict(seed=seed, shard="known", n=1, kind="known"), dict(seed=seed, shard="redecorated", n=2, kind="redecorated"),
-         dict(seed=seed, shard="again0", n=3, kind="again"), dict(seed=seed, shard="again1", n=3, kind="again")]
+         dict(seed=seed, shard="again0", n=3, kind="again"), dict(seed=seed, shard="again1", n=3, kind="again"), dict(seed=seed, shard="kept", n=4, kind="kept")]
 
 
 def leaf(rnd, pid, flavour=None, gate=False):
@@ -184,6 +184,53 @@ def gen_steady(rnd, spec):
     script.append(["quiesce", 0.5, 10.0])
     gen["script"] = script
     return {"watchdog": 40, "inject": common.inject_conf(rnd, 0.7), "generations": [gen], "meta": {"kind": "steady", "expected": expected, "dropped": dropped}}
+
+
+def gen_kept(rnd, spec):
+    """Services started by one runner stay alive (the application keeps them) while that runtime is shut down and a fresh
+    runner accepts in the same process: they have been started - once."""
+    first = {"accept_delay": 0.03, "keep_instances": True, "payloads": [], "services": [], "grace": 0.15, "script": [["wait_running", 10]]}
+    for i in range(rnd.randint(2, 5)):
+        flavour = rnd.choice(common.FLAVOURS)
+        program = rnd.choice([[["beat", 0.01, 3]], [["sleep", 0.01]]] + ([[["beat", 0.02, None]]] if flavour != "threading" else []))
+        s = {"id": "kept%d" % i, "flavour": flavour, "program": program, "create": rnd.choice(["before", "after"]), "shape": rnd.choice(["plain", "plain", "subclass", "valued"])}
+        first["services"].append(s)
+        if s["create"] == "after":
+            first["script"].append(["service", s["id"]])
+    first["script"] += [["sleep", 0.2], ["shutdown"], ["expect_end", 8.0]]
+    runs = [first]
+    for g in range(rnd.randint(1, 2)):
+        nxt = {"accept_delay": 0.03, "payloads": [{"id": "fresh%d" % g, "flavour": rnd.choice(common.FLAVOURS), "when": "queued", "program": [["sleep", 0.01]], "cleanup": {"kind": "none"}}],
+               "services": [{"id": "later%d" % g, "flavour": rnd.choice(common.FLAVOURS), "program": [["beat", 0.01, 3]], "create": "before"}], "grace": 0.15,
+               "script": [["wait_running", 10], ["sleep", 0.3], ["shutdown"], ["expect_end", 8.0]]}
+        runs.append(nxt)
+    return {"watchdog": 40, "inject": None, "generations": runs, "meta": {"kind": "kept", "kept": [s["id"] for s in first["services"]]}}
+
+
+def judge_kept(case, run, result):
+    trouble = common.harness_trouble(run)
+    if trouble:
+        result.inconc(trouble)
+        return []
+    if common.watchdog_fired(run):
+        return [("a run with services kept from an earlier runtime did not end: %s" % common.classify_hang(run), None)]
+    problems = []
+    n_runs = len([e for e in run.events if e["kind"] == "accept-ended"])
+    if n_runs != len(case["generations"]):
+        result.inconc("only %d of %d runs ended" % (n_runs, len(case["generations"])))
+        return []
+    for sid in case["meta"]["kept"]:
+        starts = [e for e in run.events if e["kind"] == "start" and e.get("pid") == "svc:" + sid]
+        if len(starts) != 1:
+            problems.append(("service %s, started by the first runtime and kept alive, was started %d times over %d runs of fresh runners in one process, expected exactly once"
+                             % (sid, len(starts), n_runs), None))
+        else:
+            result.count("services_kept_across_runs_of_fresh_runners_started_exactly_once")
+    for g in range(1, len(case["generations"])):
+        starts = [e for e in run.events if e["kind"] == "start" and e.get("pid") == "svc:later%d" % (g - 1)]
+        if len(starts) != 1:
+            problems.append(("service later%d of run %d was started %d times" % (g - 1, g, len(starts)), None))
+    return problems
 
 
 def gen_again(rnd, spec):
@@ -476,6 +523,8 @@ def judge(case, run, result):
 
 def execute(case, result):
     run = common.run_and_observe(case, result)
+    if case["meta"].get("kind") == "kept":
+        return judge_kept(case, run, result), run
     return judge(case, run, result), run
 
 
@@ -513,7 +562,7 @@ def run_shard(spec):
         run_redecorated_shard(spec, result)
         return result
     only = spec.get("only_case")
-    gen = {"again": gen_again, "steady": gen_steady, "window": gen_window, "known": gen_known, "idle": gen_idle, "storm": gen_storm}[spec["kind"]]
+    gen = {"again": gen_again, "steady": gen_steady, "window": gen_window, "known": gen_known, "idle": gen_idle, "storm": gen_storm, "kept": gen_kept}[spec["kind"]]
     for i in range(spec["n"]):
         if only is not None and i != only:
             continue
@@ -532,7 +581,7 @@ def finish(total, tier):
             "gated_adopts_returned_before_payload_released", "scenarios_with_idle_asyncio_loop", "service_storms", "scenarios_with_bursts", "scenarios_with_replaced_services",
             "window_adopts_judged", "adopts_in_shutdown_window_inside", "adopts_in_shutdown_window_outside",
             "scenarios_with_concurrent_registration_before_start", "forced_redecorated_schedules_checked",
-            "scenarios_in_the_second_run_of_the_same_runner", "payloads_queued_on_a_runner_that_is_never_started", "adopts_in_the_last_moments_of_the_closing", "plain_callables_called_inside_their_runner"]
+            "scenarios_in_the_second_run_of_the_same_runner", "payloads_queued_on_a_runner_that_is_never_started", "adopts_in_the_last_moments_of_the_closing", "plain_callables_called_inside_their_runner", "services_kept_across_runs_of_fresh_runners_started_exactly_once"]
     need += ["services_of_shape_%s_started_exactly_once" % k for k in ("plain", "subclass", "falsy", "redecorated", "valued", "own_init")]
     need += ["payloads_adopted_repeatedly_before_start"]
     for name in need:
